@@ -1823,10 +1823,12 @@ def evaluate__round(self: XPathFunction, context: ta.ContextType = None) \
     try:
         number = decimal.Decimal(arg)
         exponent = decimal.Decimal(1).scaleb(-precision)
-        if number > 0:
-            return type(arg)(number.quantize(exponent, rounding='ROUND_HALF_UP'))
-        else:
-            return type(arg)(number.quantize(exponent, rounding='ROUND_HALF_DOWN'))
+        with decimal.localcontext() as ctx:
+            ctx.prec = 2000  # enough for every xs:double and for decimals rounded at |precision| < 1900
+            if number > 0:
+                return type(arg)(number.quantize(exponent, rounding='ROUND_HALF_UP'))
+            else:
+                return type(arg)(number.quantize(exponent, rounding='ROUND_HALF_DOWN'))
     except TypeError as err:
         if isinstance(context, XPathSchemaContext):
             return []
